@@ -192,6 +192,7 @@ def answer (cmd : String) (args : List Nat) : String :=
       match handRankValue T args with
       | some v => showRank (HandRank.ofValue v)
       | none => "panic"]
+  | "evh", ws => if 5 ≤ ws.length ∧ ws.length ≤ 7 then showValueHand (handRankValueAndHand T ws) else "bad-request"
   | "ckc", [w] => toString (fromCkc w)
   | "evv", ws =>
     -- validated view (property C04): validity, validated value(s); the unvalidated value only for a valid hand
